@@ -195,7 +195,8 @@ IStart ==
   /\ ~ix.run /\ nrst < MaxRestarts
   /\ LET c == ix.commit
          okc == c = None \/ (Found(ix, blk, c) /\ ix.ent[c].mu = ix.cmu)       \* coinstatsindex: LookUpOne (height key, else by-hash table) and DB_MUHASH
-         okf == c = None \/ ix.hkey[HeightB(blk, c)] = c                        \* blockfilterindex: ReadFilterHeader reads the height key only
+         okf == c = None \/ Found(ix, blk, c)                                   \* blockfilterindex: LookUpOne as well (since /repo c07c1d6; before, ReadFilterHeader
+                                                                               \* read the height key only and Init failed when another branch had taken it)
          e == IF ~okc THEN "coinstats-init-entry-mismatch" ELSE "none"
      IN ix' = IF e # "none" THEN [ix EXCEPT !.run = TRUE, !.err = e, !.unclean = (@ \/ ix.dirty)]
               ELSE [ix EXCEPT !.run = TRUE, !.best = c, !.synced = (c = tip), !.cur = c, !.unclean = (@ \/ ix.dirty), !.ferr = ~okf, !.fpos = ix.cfpos,
@@ -222,9 +223,8 @@ NextI == \/ \E p \in Ids, txs \in Lists, cb \in CbModes, dt \in Dts : IMine(p, t
 \* blocks of the active chain the index must answer for: ancestors of its best block on the active chain
 Covered == IF ix.run /\ ix.best # None THEN AncB(blk, tip) \cap AncB(blk, ix.best) ELSE {}
 NoIndexError == ix.err = "none"
-\* ... required of every history without a re-creation over a database that was ahead of its locator; with one, the only failure
-\* the model can reach is the block filter index refusing to start (its Init reads the height key, which a later branch has taken)
-NoIndexErrorClean == ~ix.unclean => (ix.err = "none" /\ ~ix.ferr)
+\* (no index ever refuses to start or hits an internal consistency error, unclean restarts included)
+NoIndexErrorClean == ix.err = "none" /\ ~ix.ferr
 OnlyKnownError == ix.err = "none"
 NoFilterInitFailure == ~ix.ferr
 \* once synced (and the notification queue is drained, which every step of the model includes) the whole active chain is covered
